@@ -15,3 +15,42 @@ package routing
 //@   loop 0 step [C11.musk-step] outflows.at(i) == a1*(inflows.at(i)+laterals.at(i)) + a2*pre(prevInflow) + a3*pre(prevOutflow)
 //@   loop 0 step [C11.musk-carry-inflow] post(prevInflow) == inflows.at(i) + laterals.at(i)
 //@   loop 0 step [C11.musk-carry-outflow] post(prevOutflow) == outflows.at(i)
+
+// ---- C12: lumped constituent transport ----
+// per step: stored + mass in = stored' + mass out, except the documented flush
+// when the working volume is below MINIMUM_VOLUME (0.01)
+
+//@ func LumpedConstituentTransport(inflowLoads, lateralLoads, outflows, storage, initialStoredMass, x, pointInput, deltaT, outflowLoads, pointSourceLoad) returns (rStored)
+//@   noalias
+//@   nullable pointSourceLoad
+//@   safety C12
+//@   requires inflowLoads.len == lateralLoads.len && inflowLoads.len == outflows.len && inflowLoads.len == storage.len && inflowLoads.len == outflowLoads.len
+//@   requires implies(pointSourceLoad != nil, pointSourceLoad.len == inflowLoads.len)
+//@   requires forall(k, 0, inflowLoads.len, inflowLoads.at(k) >= 0 && lateralLoads.at(k) >= 0 && outflows.at(k) >= 0 && storage.at(k) >= 0)
+//@   requires pointInput >= 0 && deltaT > 0 && initialStoredMass >= 0
+//@   assigns outflowLoads.cells, pointSourceLoad.cells
+//@   loop 0 invariant 0 <= i && i <= nDays
+//@   loop 0 invariant implies(i < nDays, inflowLoads.at(i) >= 0 && lateralLoads.at(i) >= 0 && outflows.at(i) >= 0 && storage.at(i) >= 0)
+//@   loop 0 invariant [C12.lumped-nonneg] storedMass >= 0
+//@   loop 0 step [C12.lumped-balance] implies(outflows.at(i)*deltaT + storage.at(i) >= 0.01, pre(storedMass) + (inflowLoads.at(i) + lateralLoads.at(i) + pointInput)*deltaT == post(storedMass) + outflowLoads.at(i)*deltaT)
+//@   loop 0 step [C12.lumped-flush] implies(outflows.at(i)*deltaT + storage.at(i) < 0.01, post(storedMass) == 0 && outflowLoads.at(i) == 0)
+//@   loop 0 step [C12.lumped-load-nonneg] outflowLoads.at(i) >= 0
+//@   ensures [C12.lumped-final-nonneg] rStored >= 0
+
+// ---- C12: constituent decay ----
+
+//@ func constituentDecay(inflowLoads, lateralLoads, inflows, outflows, storage, storedMass, x, halflife, deltaT, decayedLoad, outflowLoads) returns (rStored)
+//@   noalias
+//@   safety C12
+//@   requires inflowLoads.len == lateralLoads.len && inflowLoads.len == outflows.len && inflowLoads.len == storage.len && inflowLoads.len == outflowLoads.len && inflowLoads.len == decayedLoad.len
+//@   requires forall(k, 0, inflowLoads.len, inflowLoads.at(k) >= 0 && lateralLoads.at(k) >= 0 && outflows.at(k) >= 0 && storage.at(k) >= 0)
+//@   requires implies(halflife <= 0, forall(k, 0, decayedLoad.len, decayedLoad.at(k) == 0))
+//@   requires deltaT > 0 && storedMass >= 0
+//@   assigns outflowLoads.cells, decayedLoad.cells
+//@   loop 0 invariant 0 <= day && day <= n
+//@   loop 0 invariant implies(day < n, inflowLoads.at(day) >= 0 && lateralLoads.at(day) >= 0 && outflows.at(day) >= 0 && storage.at(day) >= 0)
+//@   loop 0 invariant implies(halflife <= 0, forall(k, 0, decayedLoad.len, decayedLoad.at(k) == 0))
+//@   loop 0 invariant [C12.decay-nonneg] storedMass >= 0
+//@   loop 0 step [C12.decay-balance] implies(outflows.at(day)*deltaT + storage.at(day) >= 0.01, pre(storedMass) + (inflowLoads.at(day) + lateralLoads.at(day))*deltaT == post(storedMass) + outflowLoads.at(day)*deltaT + decayedLoad.at(day)*deltaT)
+//@   loop 0 step [C12.decay-flush] implies(outflows.at(day)*deltaT + storage.at(day) < 0.01, post(storedMass) == 0 && outflowLoads.at(day) == 0)
+//@   loop 0 step [C12.decay-load-nonneg] outflowLoads.at(day) >= 0 && decayedLoad.at(day) >= 0
